@@ -67,6 +67,9 @@ pub fn minimise(def: &CheckDef, fam: &Family, plan: Plan, viol: &Violation) -> (
 
     // 1. ddmin over removable timeline operations
     for pass in 0..2 {
+        if fam.keep_workload {
+            break;
+        }
         let removable: Vec<usize> = best
             .timeline
             .iter()
@@ -138,7 +141,7 @@ pub fn minimise(def: &CheckDef, fam: &Family, plan: Plan, viol: &Violation) -> (
 
     // 3. shrink payload lengths
     let sends: Vec<usize> = best.timeline.iter().enumerate().filter(|(_, t)| matches!(t.op, Op::Send { .. })).map(|(i, _)| i).collect();
-    if sends.len() <= 40 {
+    if sends.len() <= 40 && !fam.keep_workload {
         for i in sends {
             for target in [12u32, 1448, 1449] {
                 if !budget.ok() {
